@@ -516,7 +516,12 @@ def cached_val_sweep(model: SrcModel, tier: str):
         fam_counts: Dict[str, int] = {}
         for c in cs:
             fam_counts[c["family"]] = fam_counts.get(c["family"], 0) + 1
-        return {"cases": n, "families": fam_counts, "problems": problems, "errors": sorted(set(errors))[:5]}
+        def brief(c):
+            n_ = c["node"]
+            return {"family": c["family"], "entry": c["entry"], "root": n_.get("expr", n_.get("entries")), "rc": c["env"]["rc"], "soll_is_required": c["env"]["soll"], "parent": c.get("parent")}
+
+        return {"cases": n, "families": fam_counts, "problems": problems, "errors": sorted(set(errors))[:5],
+                "samples": [brief(c) for c in cs[:: max(1, n // 8)]][:8]}
 
     return disk_cached(model, f"valsweep-{tier}", compute)
 
@@ -541,6 +546,7 @@ def report(ctx, rules: Tuple[str, ...], file: str = "src/ahbicht/validation/vali
         ctx.discharged += max(0, m - len(bad))
         ctx.rules_run[rule] = ctx.rules_run.get(rule, 0) + m
         ctx.nontrivial_keys.add(f"{rule}::validation-sweep")
+        ctx.bulk_distinct += max(0, m - 1)
     shown = 0
     for (rule, key), msgs in sorted(by_key.items()):
         if shown < 15:
@@ -552,3 +558,5 @@ def report(ctx, rules: Tuple[str, ...], file: str = "src/ahbicht/validation/vali
     if len(by_key) > 15:
         ctx.note(f"{len(by_key) - 15} further failing cases not listed")
     ctx.sample({"validation_sweep": doc["families"]})
+    for smp in doc.get("samples", [])[:4]:
+        ctx.sample({"swept_validation_case": smp})
